@@ -440,23 +440,7 @@ impl Progress {
     }
 }
 
-fn my_tid() -> u32 {
-    thread_local! { static TID: u32 = std::fs::read_link("/proc/thread-self").ok().and_then(|p| p.file_name().and_then(|f| f.to_str()).and_then(|f| f.parse().ok())).unwrap_or(0); }
-    TID.with(|t| *t)
-}
-
-/// (nanoseconds on a CPU, scheduler state) of one thread of this process
-fn thread_cpu(tid: u32) -> Option<(u64, char)> {
-    let stat = std::fs::read_to_string(format!("/proc/self/task/{tid}/stat")).ok()?;
-    let after = &stat[stat.rfind(')')? + 1..];
-    let f: Vec<&str> = after.split_whitespace().collect();
-    let state = f.first()?.chars().next()?;
-    let ns = match std::fs::read_to_string(format!("/proc/self/task/{tid}/schedstat")).ok().and_then(|s| s.split_whitespace().next().and_then(|x| x.parse::<u64>().ok())) {
-        Some(ns) => ns,
-        None => (f.get(11)?.parse::<u64>().ok()? + f.get(12)?.parse::<u64>().ok()?) * 10_000_000,
-    };
-    Some((ns, state))
-}
+use crate::util::{my_tid, thread_cpu};
 
 fn stall_seconds() -> u64 {
     std::env::var("PV_C17_STALL_S").ok().and_then(|s| s.parse().ok()).unwrap_or(30)
